@@ -42,7 +42,9 @@ def _child_verify(i):
         "vacuity": res.vacuity, "stats": res.stats, "obligations": [], "assumes": c.assumes, "crash": False,
     }
     eng0 = getattr(res, "engine", None)
-    if eng0 is not None and eng0.entry_state is not None:
+    if res.error and res.error.startswith("SourceNotFound"):
+        out["fuzz_job"] = None
+    elif eng0 is not None and eng0.entry_state is not None:
         ghost_kinds = {g: kind_json(v.kind) for g, v in eng0.entry_state.ghost.items() if hasattr(v, "kind") and v.kind.smt}
         out["fuzz_job"] = fuzz_job(c, res.fs, schema.SCHEMA, eng0.accessed_param_keys, ghost_kinds, seed, 20,
                                    numeric_keys=eng0.numeric_param_keys)
